@@ -12,7 +12,7 @@
     assembling, per block:                                                 (5)
       width == 0:  new_row(); add_element(a/d, col) for every element of the row, d = *block_b++
       else:        perm/invp numbering of the columns in order of first appearance, dense T(block_dim, bcols)
-                   = the block's rows (T(i, perm[c]) = a: a repeated column index OVERWRITES);
+                   = the block's rows (T.set_zero(); T(i, perm[c]) += a: a repeated column index is ADDED);
                    for every column c of T: forward substitution with upper.begin/end(r), r = rows of the block;
                    new_row(); add_element(T(i,j), invp[j]) for every `T(i,j)` that converts to `true`
                    (exact zeros are dropped, NaN is kept);  perm cleared.
@@ -48,7 +48,8 @@ structure Gather (K : Type) where
   cnt  : Nat                 -- `invp_count`
   T    : Array (Array K)     -- `Mat<Float> T(block_dim, bcols)`, `T(i,j)` = `T[j-1][i-1]`
 
-/-- `c = *n++; if (perm[c] == 0) { perm[c] = ++invp_count; invp[invp_count] = c; }  T(i, perm[c]) = *b++;` -/
+/-- `c = *n++; if (perm[c] == 0) { perm[c] = ++invp_count; invp[invp_count] = c; }  T(i, perm[c]) += *b++;`
+    (`T.set_zero()` precedes the loop: several coefficients stored with the same column index in one row are SUMMED) -/
 def gather1 (i : Nat) (g : Gather K) (e : Nat × K) : Gather K :=
   let c := e.1
   let g1 : Gather K :=
@@ -57,7 +58,7 @@ def gather1 (i : Nat) (g : Gather K) (e : Nat × K) : Gather K :=
                invp := g.invp.setIfInBounds (g.cnt + 1) c }
     else g
   let pc := g1.perm.getD c 0
-  { g1 with T := g1.T.modify (pc - 1) (fun col => col.setIfInBounds (i - 1) e.2) }
+  { g1 with T := g1.T.modify (pc - 1) (fun col => col.setIfInBounds (i - 1) (col.getD (i - 1) 0 + e.2)) }
 
 /-- (5), correlated block: rows `off+1 … off+dim` of `mat`; returns the new rows and `perm` (cleared) -/
 def corrBlock (mat : SMat K) (nonz : Array K) (tab : Array Nat) (off dim bcols : Nat) (perm : Array Nat) :
